@@ -4,6 +4,22 @@
 // All coordinates are integers (exactly representable), so every comparison is exact;
 // the only inexact step in the C++ is exp(sum(log(ref-p))) in HypervolumeContributionMD,
 // whose results are rounded to the nearest integer (and flagged if not within 1e-6 of one).
+// sub-routine ties (ops dca/dcb): ndHelperA/ndHelperB/sweepA/sweepB of BaseDCNonDominatedSort are private; the REAL
+// header is compiled with access control lifted (every header it includes is included before, with access control intact)
+#include <shark/LinAlg/Base.h>
+#include <shark/Algorithms/DirectSearch/Operators/Domination/ParetoDominance.h>
+#include <vector>
+#include <list>
+#include <set>
+#include <map>
+#include <utility>
+#include <algorithm>
+#include <functional>
+#include <sstream>
+#include <iostream>
+#define private public
+#include <shark/Algorithms/DirectSearch/Operators/Domination/DCNonDominatedSort.h>
+#undef private
 #include <shark/Algorithms/DirectSearch/Operators/Domination/NonDominatedSort.h>
 #include <shark/Algorithms/DirectSearch/Operators/Hypervolume/HypervolumeCalculator.h>
 #include <shark/Algorithms/DirectSearch/Operators/Hypervolume/HypervolumeContribution.h>
@@ -178,6 +194,16 @@ int main(){
 				specv[i] = want;
 				if(seen[i] && std::fabs(val[i] - (double)want) > 1e-6 * (1 + std::fabs((double)want))){ orc += " !oracle contribution-def"; break; }
 			}
+			// every k: the reported keys are the first k of the full result (2-D and 3-D algorithms: cheap)
+			if(alg == "2d" || alg == "3d"){
+				for(std::size_t kk = 0; kk <= n; ++kk){
+					Res part = call(kk);
+					if(part.size() != kk){ orc += " !oracle contribution-k-count"; break; }
+					bool same = true;
+					for(std::size_t i = 0; i != kk && same; ++i) if(i >= full.size() || part[i].key != full[i].key) same = false;
+					if(!same){ orc += " !oracle contribution-k-prefix"; break; }
+				}
+			}
 			// (2) the requested k: values in reported order; each must be the contribution of its index
 			Res sel = call(k);
 			if(sel.size() != k) orc += " !oracle contribution-count";
@@ -193,6 +219,85 @@ int main(){
 			os << "] sel=[";
 			for(std::size_t i = 0; i != selv.size(); ++i) os << (i ? "," : "") << selv[i];
 			os << "] spec=" << showV(specv);
+		}else if(op == "hoys" && parseInts(t, 1, a) && a.size() >= 5 && a.size() == 5 + (std::size_t)(a[0]*(a[1]+2))){
+			// hoys m n sqrtN split cover low.. up.. pts..: HypervolumeCalculatorMDHOY::stream called directly (public member)
+			std::size_t m = a[0], n = a[1];
+			HypervolumeCalculatorMDHOY c; c.m_sqrtNoPoints = (std::size_t)a[2];
+			int split = (int)a[3]; double cover = (double)a[4];
+			RealVector low = vec(a, 5, m), up = vec(a, 5+m, m);
+			Points P = pts(a, 5+2*m, m, n);
+			// preconditions of a reachable call (otherwise the C++ indexes regionLow[split] out of range): checked here
+			bool ok = m >= 2 && split >= 0 && split <= (int)m - 2;
+			for(std::size_t d = 0; d + 1 < m; ++d) if(!(low(d) < up(d))) ok = false;
+			for(std::size_t i = 0; i != n && ok; ++i){
+				if(!(P[i](m-1) < cover)) ok = false;
+				if(i && P[i-1](m-1) > P[i](m-1)) ok = false;
+				int below = 0;
+				for(std::size_t d = 0; d + 1 < m; ++d){
+					if(!(P[i](d) < up(d))) ok = false;
+					if((int)d < split && low(d) < P[i](d)) ++below;
+				}
+				if(below >= 2) ok = false;
+			}
+			if(!ok){ os << "skip"; }
+			else{
+				double v = n ? c.stream(low, up, P, split, cover) : 0.0;
+				os << "stream=" << num(v);
+				// definition: cells x of the (m-1)-dimensional region, height cover - min{last(p) | p <= x}
+				std::vector<long long> z(m-1);
+				for(std::size_t d = 0; d + 1 < m; ++d) z[d] = (long long)low(d);
+				long long want = 0;
+				while(true){
+					double best = cover;
+					for(auto const& p: P){
+						bool le = true;
+						for(std::size_t d = 0; d + 1 < m && le; ++d) if(p(d) > (double)z[d]) le = false;
+						if(le) best = std::min(best, p(m-1));
+					}
+					want += (long long)(cover - best);
+					std::size_t d = 0;
+					while(d + 1 < m){ if(++z[d] < (long long)up(d)) break; z[d] = (long long)low(d); ++d; }
+					if(d + 1 == m) break;
+				}
+				if(v != (double)want) orc += " !oracle hoy-stream-def";
+			}
+		}else if((op == "dca" || op == "dcb") && parseInts(t, 1, a) && a.size() >= 4){
+			// dca k m n 0 pts.. frt..   : ndHelperA(S, k) on the n points as given (front numbers preset)
+			// dcb k m nL nH pts.. frt.. : ndHelperB(L, H, k), L = first nL points, H = the following nH points
+			std::size_t k = a[0], m = a[1], nL = a[2], nH = a[3], n = nL + nH;
+			if(a.size() != 4 + n*m + n || k < 2 || k > m){ std::cout << "bad-op\n"; continue; }
+			Points P = pts(a, 4, m, n);
+			std::vector<BaseDCNonDominatedSort::Point> pv;
+			for(std::size_t i = 0; i != n; ++i){ pv.push_back(BaseDCNonDominatedSort::Point(P[i])); pv.back().frt = (unsigned)a[4 + n*m + i]; }
+			BaseDCNonDominatedSort sorter;
+			BaseDCNonDominatedSort::ContainerType L, H;
+			for(std::size_t i = 0; i != nL; ++i) L.push_back(&pv[i]);
+			for(std::size_t i = nL; i != n; ++i) H.push_back(&pv[i]);
+			std::vector<unsigned> before(n), after(n);
+			for(std::size_t i = 0; i != n; ++i) before[i] = pv[i].frt;
+			if(op == "dca") sorter.ndHelperA(L, k); else sorter.ndHelperB(L, H, k);
+			for(std::size_t i = 0; i != n; ++i) after[i] = pv[i].frt;
+			os << "frt=" << showV(after);
+			// independent postconditions (definitions of figures 2 and 7 of the paper, on the first k objectives)
+			auto leK = [&](std::size_t i, std::size_t j){ for(std::size_t d = 0; d != k; ++d) if(P[i](d) > P[j](d)) return false; return true; };
+			if(op == "dcb"){
+				for(std::size_t i = 0; i != nL; ++i) if(after[i] != before[i]) orc += " !oracle dcb-changes-L";
+				for(std::size_t h = nL; h != n; ++h){
+					unsigned want = before[h];
+					for(std::size_t l = 0; l != nL; ++l) if(leK(l, h)) want = std::max(want, before[l] + 1);
+					if(after[h] != want){ orc += " !oracle dcb-def"; break; }
+				}
+			}else{
+				// A: frt'[s] = max(frt[s], 1 + max frt'[t] over t in S strictly dominating s in the first k objectives)
+				// (precondition of ndHelperA: the projections on the first k objectives are pairwise distinct)
+				bool distinct = true;
+				for(std::size_t i = 0; i != n && distinct; ++i) for(std::size_t j = 0; j != i; ++j) if(leK(i, j) && leK(j, i)){ distinct = false; break; }
+				for(std::size_t s2 = 0; s2 != n && distinct; ++s2){
+					unsigned want = before[s2];
+					for(std::size_t t2 = 0; t2 != n; ++t2) if(t2 != s2 && leK(t2, s2) && !leK(s2, t2)) want = std::max(want, after[t2] + 1);
+					if(after[s2] != want){ orc += " !oracle dca-def"; break; }
+				}
+			}
 		}else if(op == "ssp" && parseInts(t, 1, a) && a.size() >= 4 && a.size() == 4 + (std::size_t)(2*a[1])){
 			std::size_t k = a[0], n = a[1];
 			RealVector ref = vec(a, 2, 2);
